@@ -135,6 +135,9 @@ def convert_mps(prog, seed, w_prec=(2, 4, 8), a_prec=(2, 4, 8), per_channel=Fals
               disable_sampling=disable_sampling, full_cost=full_cost)
     kw.update(extra or {})
     mps = MPS(model, cost=cost if cost is not None else params_bit, **kw)
+    from vf import neutral
+    # (README: export() crashes for the per-channel scheme)
+    neutral.maybe_warm(mps, xs, seed, allow_export=not per_channel)
     return model, mps, xs
 
 
